@@ -31,11 +31,14 @@ def handle (_op : String) (args : List String) (impl : String) : String :=
     let sto := if signed then s!"1:{bt}:1" else "-"
     -- what the per-file `payload::Builder` of the model puts into c_mtime (Model/Cpio.lean `builderMeta`)
     let cmt := (r.cfg.files.map fun f => (RpmVerif.Cpio.builderMeta 0 0 1 ⟨f.cpioPath, f.mode, []⟩).mtime).foldl max 0
-    let m := s!"ok paysha={paysha} archsha={archsha} runs={tok itoks "runs"} distinct=1 hdr={hex16 (fnv (writeHeader hdr))} bt={bt} mt={mt} st={st} cmt={cmt} sto={sto}"
+    -- a source date later than every clock of the runs (in-process: now + i·7919, children: now + k·100003): the build time is
+    -- the clock's, so every run differs in it — the guard of the property ("source date set" = in the past of the build) fails
+    let future := match r.cfg.sourceDate with | some d => decide (d > r.now + 500000) | none => false
+    let m := s!"ok paysha={paysha} archsha={archsha} runs={tok itoks "runs"} distinct={if future then tok itoks "runs" else "1"} hdr={hex16 (fnv (writeHeader hdr))} bt={bt} mt={mt} st={st} cmt={cmt} sto={sto}"
     let sd := r.cfg.sourceDate.getD 0
     let le (s : String) : Bool := match s.toNat? with | some n => n ≤ sd | none => s == "-"
     let v :=
-      if tok itoks "distinct" != "1" then "fails:not-reproducible"
+      if !future && tok itoks "distinct" != "1" then "fails:not-reproducible"
       else if !le (tok itoks "bt") then "fails:buildtime-after-source-date"
       else if !le (tok itoks "mt") then "fails:mtime-after-source-date"
       else if !le (tok itoks "st") then "fails:sigtime-after-source-date"
@@ -44,6 +47,7 @@ def handle (_op : String) (args : List String) (impl : String) : String :=
       else if !le (tok itoks "cmt") then "fails:cpio-mtime-after-source-date"
       else "holds"
     let owners := ((r.cfg.files.map (·.user)) ++ (r.cfg.files.map (·.group))).eraseDups.length
-    answer m v s!"owners{min owners 4}-{if signed then "signed" else "unsigned"}"
+    let v := if future && v == "holds" then "dontcare" else v
+    answer m v (if future then "future-source-date" else s!"owners{min owners 4}-{if signed then "signed" else "unsigned"}")
 
 end RpmVerif.Driver.C11
